@@ -455,5 +455,7 @@ def defaults_snapshot(classes):
     out = {}
     for c in classes:
         f = c.__init__
-        out[c.__name__] = (snapshot(getattr(f, "__defaults__", None)), snapshot(getattr(f, "__kwdefaults__", None)))
+        # class-level mutable containers (shared by all instances) count as shared defaults too
+        cls_state = tuple(sorted((k, snapshot(v)) for k, v in vars(c).items() if not k.startswith("__") and isinstance(v, (dict, list, set))))
+        out[c.__name__] = (snapshot(getattr(f, "__defaults__", None)), snapshot(getattr(f, "__kwdefaults__", None)), cls_state)
     return out
